@@ -273,6 +273,15 @@ def job_bounded(tier, rng, d):
                sample=dict(d=d, batch=[2, 3], backend='torch64'))]
 
 
+def job_mixed_dims(tier, rng):
+    """histories: the conversions are used for several dimensions in ONE process, interleaved and repeated (cached basis tables must be keyed by everything they depend on)"""
+    out = [job_bounded('quick', rng, d)[0] for d in (3, 2, 5, 2, 4, 3, 6, 2)]
+    bad = next((r for r in out if r['verdict'] != 'pass'), None)
+    return [ob(f'{PROP}.runtime_contracts.mixed_dimensions_in_one_process', 'pass' if bad is None else 'refuted', tier='B', backend='native', functions=['numqi.gellmann (numpy and torch branches)'],
+               evaluations=sum(r.get('evaluations', 0) for r in out), distinct_nontrivial=sum(r.get('distinct_nontrivial', 0) for r in out), witness=None if bad is None else bad.get('witness'),
+               native=dict(confirmed=bad is not None), detail='' if bad is None else 'failed for ' + bad['id'])]
+
+
 def jobs(tier):
     ds = SHAPES[tier]['d']
     J = []
@@ -292,6 +301,7 @@ def jobs(tier):
     J.append(('job_identity', dict(cname='all_gellmann_matrix', shapes=[(3, 2, True)])))
     for d in range(2, 9):
         J.append(('job_bounded', dict(d=d)))
+    J.append(('job_mixed_dims', {}))
     return J
 
 
